@@ -74,3 +74,8 @@ pub fn leak_and_subtract(v: Vec<u8>, a: Instant, b: Instant) -> u128 {
 /// a single-threaded cell made shareable by hand (control for C12.L12 / C18.T10: no manual Send/Sync impls)
 pub struct LocalThing(std::cell::Cell<u64>);
 unsafe impl Sync for LocalThing {}
+
+/// a constant that still mentions a type parameter: the fact extractor must not try to evaluate it (regression control for a driver ICE)
+pub fn generic_layout<T>() -> (usize, usize) {
+    (std::mem::size_of::<T>(), std::mem::align_of::<T>())
+}
